@@ -56,6 +56,15 @@ type cfgA struct {
 	SessOnly   bool   // Config.CookieSessionOnly together with IdleTimeout (documented: cookie expiration ignored)
 	DecoyStore bool   // Config.Storage set next to Config.Session (documented: ignored if Session is set); the decoy answers every Get with a value
 
+	// RequestCtx dimension: "fresh" = every request of a history on a new fasthttp.RequestCtx;
+	// "shared" (and "", the BFS configurations) = all requests of a history on ONE RequestCtx that is
+	// reset between requests the way fasthttp does on a keep-alive connection / through its ctx pool.
+	Ctx string
+	// Layouts: configuration of the request-layout family (harness_c.go): histories are enumerated
+	// without state de-duplication and every request chooses its layout.
+	Layouts bool
+	Free    int // request-layout family: number of freely chosen steps after the issuing prefix
+
 	// derived by resolve() before the search
 	CkName    string // the CSRF cookie = the cookie in which a safe request leaves the generated token (observed, not assumed)
 	TokCookie string // name of the cookie the configured extractor reads ("" if it does not read a cookie)
@@ -65,6 +74,9 @@ func (c cfgA) name() string {
 	n := fmt.Sprintf("%s/%s/singleuse=%v/faults=%d", c.Extractor, c.Backend, c.SingleUse, c.Faults)
 	if w := c.wiring(); w != "" {
 		n += "/" + w
+	}
+	if c.Layouts {
+		n += "/request-layouts/ctx=" + c.Ctx
 	}
 	return n
 }
@@ -80,6 +92,7 @@ type opA struct {
 	Tok   string
 	Ck    string
 	Label string
+	Lay   layout // where the request carries the CSRF cookie and the token (harness_c.go); zero = cookie first, token first
 }
 
 func (o opA) String() string {
@@ -91,11 +104,11 @@ func (o opA) String() string {
 	case 'T':
 		return "tick " + tickName[o.Tick]
 	case 'S':
-		return fmt.Sprintf("%s: GET (safe) cookie=%q (%s)%s", clientName[o.Cl], o.Ck, o.Label, f)
+		return fmt.Sprintf("%s: GET (safe) cookie=%q (%s)%s%s", clientName[o.Cl], o.Ck, o.Label, o.Lay.text(false), f)
 	case 'D':
-		return fmt.Sprintf("%s: GET whose handler calls csrf.HandlerFromContext(c).DeleteToken(c), cookie=%q%s", clientName[o.Cl], o.Ck, f)
+		return fmt.Sprintf("%s: GET whose handler calls csrf.HandlerFromContext(c).DeleteToken(c), cookie=%q%s%s", clientName[o.Cl], o.Ck, o.Lay.text(false), f)
 	}
-	return fmt.Sprintf("%s: POST (unsafe) token=%q cookie=%q (%s)%s", clientName[o.Cl], o.Tok, o.Ck, o.Label, f)
+	return fmt.Sprintf("%s: POST (unsafe) token=%q cookie=%q (%s)%s%s", clientName[o.Cl], o.Tok, o.Ck, o.Label, o.Lay.text(true), f)
 }
 
 func histStrings(h []opA) []string {
@@ -190,6 +203,19 @@ func newSut(c cfgA) *sut {
 	return s
 }
 
+// requestCtx returns the RequestCtx the next request is served on.
+func (s *sut) requestCtx() *fasthttp.RequestCtx {
+	if s.cfg.Ctx == "fresh" {
+		return &fasthttp.RequestCtx{}
+	}
+	// shared: what fasthttp's serveConn does before the next request of a connection and
+	// releaseCtx/acquireCtx do between connections: userValues.Reset, Request.Reset,
+	// Response.Reset (fx.CallInto does the latter two; Init2 leaves the user values alone). The
+	// buffers of the previous request stay allocated and are overwritten in place.
+	s.fctx.ResetUserValues()
+	return &s.fctx
+}
+
 type obsA struct {
 	Reached bool     `json:"handler_reached"`
 	Status  int      `json:"status"`
@@ -202,7 +228,7 @@ type obsA struct {
 	Failed  string   `json:"failed_storage_call,omitempty"`
 }
 
-func (s *sut) do(method, tok, ck, sid string, del bool, failAt int) obsA {
+func (s *sut) do(method, tok, ck, sid string, del bool, failAt int, lay layout) obsA {
 	post := method == "POST"
 	path := "/"
 	if s.cfg.Extractor == "param" {
@@ -212,8 +238,15 @@ func (s *sut) do(method, tok, ck, sid string, del bool, failAt int) obsA {
 			path = "/page"
 		}
 	}
+	// the layout decides what precedes the token in its container (header list, query string, form
+	// body) and what surrounds the CSRF cookie in the Cookie header
+	pad := lay.slotPad(len(tok))
 	if s.cfg.Extractor == "query" && post && tok != "" {
-		path += "?_csrf=" + tok
+		path += "?"
+		if pad != "" {
+			path += "pad=" + pad + "&"
+		}
+		path += "_csrf=" + tok
 	}
 	req := fx.Req(method, path)
 	req.Header.SetHost("example.com")
@@ -221,12 +254,19 @@ func (s *sut) do(method, tok, ck, sid string, del bool, failAt int) obsA {
 		switch s.cfg.Extractor {
 		case "header":
 			if tok != "" {
+				if pad != "" {
+					req.Header.Set("X-Pad", pad)
+				}
 				req.Header.Set("X-Csrf-Token", tok)
 			}
 		case "form":
 			req.Header.SetContentType("application/x-www-form-urlencoded")
 			if tok != "" {
-				req.SetBodyString("_csrf=" + tok)
+				body := "_csrf=" + tok
+				if pad != "" {
+					body = "pad=" + pad + "&" + body
+				}
+				req.SetBodyString(body)
 			}
 		}
 	}
@@ -234,8 +274,15 @@ func (s *sut) do(method, tok, ck, sid string, del bool, failAt int) obsA {
 	if post && s.cfg.sameSlot() {
 		ck = tok // the extractor reads the CSRF cookie itself
 	}
+	other := lay.otherCookie(len(ck))
 	if ck != "" {
+		if other != "" && lay.Ck != ckBeforeOther {
+			cks = append(cks, other)
+		}
 		cks = append(cks, s.cfg.CkName+"="+ck)
+		if other != "" && lay.Ck == ckBeforeOther {
+			cks = append(cks, other)
+		}
 	}
 	if post && tok != "" {
 		if tc := s.cfg.TokCookie; tc != "" && tc != s.cfg.CkName {
@@ -259,14 +306,15 @@ func (s *sut) do(method, tok, ck, sid string, del bool, failAt int) obsA {
 	if s.st != nil {
 		s.st.beginOp(failAt)
 	}
-	fx.CallInto(&s.fctx, s.h, req, nil, false)
-	ob := obsA{Reached: s.reached, Status: s.fctx.Response.StatusCode(), Err: s.csrfErr, DelErr: s.delErr, Gen: s.gen}
+	fctx := s.requestCtx()
+	fx.CallInto(fctx, s.h, req, nil, false)
+	ob := obsA{Reached: s.reached, Status: fctx.Response.StatusCode(), Err: s.csrfErr, DelErr: s.delErr, Gen: s.gen}
 	if s.st != nil {
 		ob.Calls = append([]string(nil), s.st.log...)
 		ob.Failed = s.st.failed
 		s.st.beginOp(-1)
 	}
-	s.fctx.Response.Header.VisitAllCookie(func(k, v []byte) {
+	fctx.Response.Header.VisitAllCookie(func(k, v []byte) {
 		var c fasthttp.Cookie
 		if err := c.ParseBytes(v); err != nil {
 			return
@@ -381,7 +429,7 @@ func (rs *runState) step(o opA) stepInfo {
 	switch o.Kind {
 	case 'S', 'D':
 		si.CLive = rs.m.isLive(o.Ck)
-		si.ob = rs.s.do("GET", "", o.Ck, c.Sid, o.Kind == 'D', int(o.Fault))
+		si.ob = rs.s.do("GET", "", o.Ck, c.Sid, o.Kind == 'D', int(o.Fault), o.Lay)
 		if si.CLive && si.ob.Reached {
 			rs.m.touch(o.Ck)
 		}
@@ -393,7 +441,7 @@ func (rs *runState) step(o opA) stepInfo {
 		}
 	case 'U':
 		si.P, si.Why = rs.m.allows(rs.cfg.sameSlot(), o.Tok, o.Ck, rs.s.issued)
-		si.ob = rs.s.do("POST", o.Tok, o.Ck, c.Sid, false, int(o.Fault))
+		si.ob = rs.s.do("POST", o.Tok, o.Ck, c.Sid, false, int(o.Fault), o.Lay)
 		if si.ob.Reached && si.P {
 			if rs.cfg.SingleUse {
 				rs.m.kill(o.Tok, "consumed")
@@ -471,8 +519,8 @@ func (rs *runState) key() string {
 	}
 	var ents []ent
 	if st := rs.s.st; st != nil {
-		for _, k := range st.liveKeys() {
-			e := st.m[k]
+		for _, e := range st.live() {
+			k := e.key
 			rel := time.Duration(0)
 			if e.exp != 0 {
 				rel = e.exp - st.now
@@ -604,13 +652,30 @@ func concreteOps(cfg cfgA, st *stateA) []opA {
 // oracle for the last operation of an execution
 
 type judgeCtx struct {
-	l   *core.Local
-	col *collector
-	ord [4]int
+	l          *core.Local
+	col        *collector
+	ord        [4]int
+	noClassify bool // the fresh-ctx re-run itself
+}
+
+// violatesOnFresh replays hist with every request on a RequestCtx of its own and tells whether the
+// last operation is judged a violation with the same signature.
+func violatesOnFresh(cfg cfgA, hist []opA, sig string) bool {
+	cfg.Ctx = "fresh"
+	rs := newRunState(cfg)
+	var si stepInfo
+	for _, o := range hist {
+		si = rs.step(o)
+	}
+	tmp := &collector{}
+	rs.judge(hist, si, &judgeCtx{l: core.NewLocal(), col: tmp, noClassify: true})
+	_, ok := tmp.m[sig]
+	return ok
 }
 
 func (rs *runState) caseOf(hist []opA, extra string) map[string]any {
-	c := map[string]any{"harness": "A", "config": rs.cfg.name(), "csrf_config": rs.cfg.literal(), "unsafe_request_shape": rs.cfg.requestShape(), "idle_timeout": idle.String(), "history": histStrings(hist)}
+	c := map[string]any{"harness": "A", "config": rs.cfg.name(), "csrf_config": rs.cfg.literal(), "unsafe_request_shape": rs.cfg.requestShape(), "idle_timeout": idle.String(), "history": histStrings(hist),
+		"request_ctx": rs.cfg.ctxText()}
 	if extra != "" {
 		c["then"] = extra
 	}
@@ -643,7 +708,24 @@ func (rs *runState) judge(hist []opA, si stepInfo, j *judgeCtx) {
 	faultHere := o.Fault >= 0
 	sfx := cfg.sigSuffix()
 	add := func(sig, what string, cs, observed, expected any) {
-		j.col.add(j.ord, sig+sfx, what, cs, observed, expected)
+		sig += sfx
+		if j.noClassify {
+			j.col.add(j.ord, sig, what, cs, observed, expected)
+			return
+		}
+		if cfg.Ctx != "fresh" {
+			// classification only: does the same history violate in the same way when every request gets
+			// a RequestCtx of its own? If not, something kept across requests depends on the request buffers.
+			onFresh := "violates too"
+			if !violatesOnFresh(cfg, hist, sig) {
+				onFresh = "passes"
+				sig += " reused-ctx-only"
+			}
+			if m, ok := cs.(map[string]any); ok {
+				m["same_history_on_fresh_request_ctxs"] = onFresh
+			}
+		}
+		j.col.add(j.ord, sig, what, cs, observed, expected)
 	}
 	switch o.Kind {
 	case 'T':
@@ -666,7 +748,7 @@ func (rs *runState) judge(hist []opA, si stepInfo, j *judgeCtx) {
 		if si.ob.Reached && si.ob.SetCk != nil && *si.ob.SetCk != "" {
 			v := *si.ob.SetCk
 			probeP, _ = rs.m.allows(cfg.sameSlot(), v, v, rs.s.issued)
-			pob = rs.s.do("POST", v, v, rs.cl[o.Cl].Sid, false, -1)
+			pob = rs.s.do("POST", v, v, rs.cl[o.Cl].Sid, false, -1, layout{})
 			probeReached = pob.Reached
 			l.Add("A.probes", 1)
 			if probeReached && !probeP && rs.faultUsed && !faultHere {
@@ -718,11 +800,17 @@ func (rs *runState) judge(hist []opA, si stepInfo, j *judgeCtx) {
 		switch {
 		case si.ob.Reached && si.P:
 			l.Add("A.agree_pass", 1)
+			if cfg.Layouts {
+				l.Add("A.layouts."+cfg.Ctx+".agree_pass", 1)
+			}
 			if sfx != "" {
 				l.Add("A.rcf.agree_pass", 1)
 			}
 		case !si.ob.Reached && !si.P:
 			l.Add("A.agree_reject", 1)
+			if cfg.Layouts {
+				l.Add("A.layouts."+cfg.Ctx+".agree_reject."+si.Why, 1)
+			}
 			if sfx != "" {
 				l.Add("A.rcf.agree_reject."+si.Why, 1)
 			}
@@ -861,6 +949,7 @@ func bfs(r *core.Run, col *collector, cfg cfgA, cfgIdx int, samples *[]any) bfsR
 			}
 			parent := frontier[i]
 			n := 0
+			diverged := false
 			runOne := func(o opA, ordOp int) stepInfo {
 				throttle()
 				rs := newRunState(cfg)
@@ -869,7 +958,13 @@ func bfs(r *core.Run, col *collector, cfg cfgA, cfgIdx int, samples *[]any) bfsR
 				}
 				if len(parent.Hist) > 0 {
 					if k := rs.key(); k != parent.Key {
-						core.Fatal("harness A nondeterminism: replay of %v gives state %q, recorded %q", histStrings(parent.Hist), k, parent.Key)
+						// the middleware on an injected storage is a deterministic function of the history; a
+						// replay that ends elsewhere depends on something outside the history (e.g. the hash
+						// seed of a map whose keys alias request buffers)
+						col.add([4]int{1, cfgIdx*100 + depth, i, -1}, fmt.Sprintf("A replay-of-history-diverges backend=%s extractor=%s", cfg.Backend, cfg.Extractor),
+							"two executions of the same history on fresh apps end in different states", rs.caseOf(parent.Hist, ""), k, parent.Key)
+						diverged = true
+						return stepInfo{}
 					}
 				}
 				si := rs.step(o)
@@ -891,6 +986,9 @@ func bfs(r *core.Run, col *collector, cfg cfgA, cfgIdx int, samples *[]any) bfsR
 				return si
 			}
 			for j, o := range concreteOps(cfg, parent) {
+				if diverged {
+					break
+				}
 				si := runOne(o, j*32)
 				if cfg.Faults > 0 && !parent.FaultUsed && o.Kind != 'T' {
 					for k := range si.ob.Calls {
